@@ -13,9 +13,11 @@ Section OpInd.
   Hypothesis HC : forall fs, P (OCSSItems fs).
   Hypothesis HE : forall fs ss, P (OElem fs ss).
   Hypothesis HO : forall h body, Forall P body -> P (OOnce h body).
+  Hypothesis HN : forall n, P (ONonce n).
   Fixpoint op_ind2 (o : op) : P o :=
     match o with
     | OText t => HT t
+    | ONonce n => HN n
     | ORender s => HR s
     | OScriptItems l => HS l
     | OCSSItems fs => HC fs
@@ -352,7 +354,7 @@ Qed.
 
 Lemma step_ok o : step_ok_at o.
 Proof.
-  induction o as [t|s|l|fs|fs sl|h body IH] using op_ind2; intros r r' c H.
+  induction o as [t|s|l|fs|fs sl|h body IH|n] using op_ind2; intros r r' c H.
   - cbn in H. inversion H; subst. apply ok_nil.
   - cbn [step] in H. destruct (emit_new sid r [s]) as [r1 n] eqn:E. inversion H; subst. clear H.
     destruct (emit_new_spec _ _ _ _ _ E) as [_ [_ [_ [D _]]]].
@@ -375,6 +377,11 @@ Proof.
       apply (ok_seq r (add r (Handle h)) r'); [apply ok_def1; exact N|].
       apply (ok_seq _ r' r'); [exact Hb|].
       apply (ok_uses r' [Handle h]). intros i [<-|[]]. apply Hb. left. apply seen_add. left; reflexivity.
+  - cbn in H. inversion H; subst. cbn.
+    (* the nonce is not part of what has been rendered *)
+    unfold ok. change (defs []) with (@nil id). split; [|split; [constructor|split; [intros i []|]]].
+    + intros i. unfold Seen. assert (E : has (set_nonce r n) i = has r i) by (destruct i; reflexivity). rewrite E. cbn. tauto.
+    + intros p i q X. destruct p; discriminate.
 Qed.
 
 Theorem run_ok l r r' c : run r l = (r', c) -> ok r r' (log c).
@@ -462,7 +469,7 @@ Qed.
 
 Lemma step_served o : step_served_at o.
 Proof.
-  induction o as [t|s|l|fs|fs sl|h body IH] using op_ind2; intros r r' c H.
+  induction o as [t|s|l|fs|fs sl|h body IH|n] using op_ind2; intros r r' c H.
   - cbn in H. inversion H; subst. reflexivity.
   - cbn [step] in H. destruct (emit_new sid r [s]) as [r1 n] eqn:E. inversion H; subst.
     rewrite (emit_new_hs sid sid_nh _ _ _ _ E). cbn [wanted1]. destruct (scall s); reflexivity.
@@ -482,6 +489,7 @@ Proof.
     + destruct (run (add r (Handle h)) body) as [r1 c1] eqn:R. inversion H; subst.
       pose proof (run_served_F body IH _ _ _ R) as X. cbn [add hs] in X. rewrite <- X.
       rewrite wants_cons, wants_app. cbn [wants flat_map want1 app]. rewrite app_nil_r. reflexivity.
+  - cbn in H. inversion H; subst. reflexivity.
 Qed.
 
 Theorem every_use_served l r r' c : run r l = (r', c) -> wants c = snd (wanted (hs r) l).
